@@ -208,7 +208,11 @@ Mutate(e) ==
       o == ObsOf(e, h)
       alive == IF Broken(o) THEN safe[h].present ELSE ToSet(o.alive)
   IN
-  IF void \/ IsNull(g) THEN Voided
+  IF void THEN Voided
+  ELSE IF IsNull(g) THEN
+     \* a handle whose reference state is unknown (the result of a slice outside C13's domain, say): the call is not judged,
+     \* the other handles go on
+     [Cur EXCEPT !.lastobs = NewObs(e), !.lastev = [op |-> e.op, ret |-> e.ret]]
   ELSE IF ~indom THEN
      \* outside the domain: nothing more is judged in this trace, except that the three overruns C07 names must panic
      \* ... and that EVERY id next_id() returns is fresh (C05 speaks of every id returned, not of calls with ids to spare:
@@ -312,6 +316,48 @@ Twin(e) ==
      !.twin = IF h = d THEN twin ELSE [twin EXCEPT ![d] = [of |-> h, kind |-> kind]],
      !.lastev = [op |-> e.op, ret |-> e.ret],
      !.div = (div \/ ~ok)]
+
+(* ------------------------- save now, load later (C08) ----------------------- *)
+\* The checkpoint file is a snapshot in time: save() writes the graph as it is now, the original lives on, load() - any
+\* number of calls later - returns the graph that was SAVED (allocator restarted), not the one the original has become.
+\* The file's content is kept as the reference graph of the reserved handle FileH (with the C01 history of that moment).
+FileH == MaxH - 1
+SaveEv(e) ==
+  LET h == e.h
+      g == gs[h] IN
+  IF void \/ IsNull(g) THEN Voided
+  ELSE
+  [Cur EXCEPT
+     !.fails = fails \cup (IF e.ret = "ok" THEN {} ELSE {F(e, "C08", "save() of a graph failed")})
+                     \cup (IF e.panic \/ e.same THEN {} ELSE {F(e, "C08", "save() changed the graph it saved")})
+                     \cup (IF OthersSame(e, {}) THEN {} ELSE {F(e, "C08", "save() changed another handle")}),
+     !.gs = [gs EXCEPT ![FileH] = IF div \/ e.ret # "ok" THEN NullG ELSE g],
+     !.safe = [safe EXCEPT ![FileH] = safe[h]],
+     !.lastobs = NewObs(e),
+     !.lastev = [op |-> e.op, ret |-> e.ret]]
+LoadEv(e) ==
+  LET d == e.dst
+      f == gs[FileH] IN
+  IF void \/ div \/ IsNull(f) THEN Voided
+  ELSE
+  LET ok == e.ret = "ok" /\ HasObs(e, d) /\ ~Broken(ObsOf(e, d))
+      od == ObsOf(e, d)
+      g2 == [ReloadOp(f) EXCEPT !.nextv = IF ok THEN od.nextv ELSE 0]
+      same == ok /\ ObsMatches(od, g2) /\ LatentOk(od, g2) /\ OrderOk(od, g2)
+      pos == ok /\ od.nextv \in {0, f.nextv}
+  IN
+  [Cur EXCEPT
+     !.fails = fails \cup (IF ok THEN {} ELSE {F(e, "C08", "load() of a complete checkpoint failed or returned an inconsistent graph")})
+                     \cup (IF ~ok \/ same THEN {} ELSE {F(e, "C08", "the loaded graph is not the graph that was saved (the original has moved on since)")})
+                     \cup (IF ~ok \/ pos THEN {} ELSE {F(e, "C08", "allocator position of the loaded graph")})
+                     \cup (IF OthersSame(e, {d}) THEN {} ELSE {F(e, "C08", "load() changed another handle")}),
+     !.gs = [gs EXCEPT ![d] = g2],
+     !.safe = [safe EXCEPT ![d] = safe[FileH]],
+     !.issued = [issued EXCEPT ![d] = {}],
+     !.lastobs = NewObs(e),
+     !.twin = [twin EXCEPT ![d] = [of |-> -1, kind |-> "none"]],
+     !.lastev = [op |-> e.op, ret |-> e.ret],
+     !.div = (div \/ ~ok \/ ~same)]
 
 (* ------------------------- slice ------------------------------------------ *)
 SliceEv(e) ==
@@ -510,6 +556,11 @@ InspectEv(e) ==
   LET g == gs[e.h]
       R == Reach(g, e.v, AllP)
       want == UNION {{<<u, g.edges[u][i][1], g.edges[u][i][2]>> : i \in 1..Len(g.edges[u])} : u \in R} IN
+  IF ~void /\ ~div /\ ~IsNull(g) /\ e.v \in g.present /\ ~(R \subseteq g.present) THEN
+     \* edges that dangle (their target was collected): WHAT inspect lists there is left open, but it is a call within the
+     \* limits on a present vertex and must come back ("terminates on every graph")
+     [Cur EXCEPT !.fails = fails \cup (IF "panicked" \in DOMAIN e /\ e.panicked THEN {F(e, "C20", "inspect: panicked on a graph with dangling edges")} ELSE {})]
+  ELSE
   IF void \/ div \/ IsNull(g) \/ e.v \notin g.present \/ ~(R \subseteq g.present) THEN Cur   \* dangling edges: left open
   ELSE [Cur EXCEPT !.fails = fails
           \cup (IF e.wellformed /\ EdgeBagOk(e, want) THEN {}
@@ -574,6 +625,8 @@ Judge(e) ==
     [] e.op = "end" -> End(e)
     [] e.op \in {"add", "bind", "put", "data", "next_id"} -> Mutate(e)
     [] e.op \in {"clone", "reload"} -> Twin(e)
+    [] e.op = "save" -> SaveEv(e)
+    [] e.op = "load" -> LoadEv(e)
     [] e.op = "slice" -> SliceEv(e)
     [] e.op = "merge" -> MergeEv(e)
     [] e.op = "new" -> NewEv(e)
